@@ -410,10 +410,19 @@ def r6_visited_by_entity(ctx, res):
 
             def is_idkey(e):
                 return isinstance(e, ast.Attribute) and e.attr in ('id', '_id') and not (isinstance(e.value, ast.Name) and e.value.id == 'self' and not has_loop)
+            # containers that GROW by id keys during the walk (a table that is only looked up / incremented is not a visited set)
+            growing = set(setnames)
+            for x in walk_no_nested(f.node):
+                if isinstance(x, ast.Call) and isinstance(x.func, ast.Attribute) and x.func.attr in ('add', 'append') and x.args \
+                        and is_idkey(x.args[0]) and isinstance(x.func.value, ast.Name):
+                    growing.add(x.func.value.id)
+                if isinstance(x, ast.Assign) and len(x.targets) == 1 and isinstance(x.targets[0], ast.Subscript) \
+                        and isinstance(x.targets[0].value, ast.Name) and is_idkey(x.targets[0].slice):
+                    growing.add(x.targets[0].value.id)
             for x in walk_no_nested(f.node):
                 bad = None
                 if isinstance(x, ast.Compare) and len(x.ops) == 1 and isinstance(x.ops[0], (ast.In, ast.NotIn)) and is_idkey(x.left) \
-                        and isinstance(x.comparators[0], ast.Name) and (x.comparators[0].id in setnames or has_loop):
+                        and isinstance(x.comparators[0], ast.Name) and x.comparators[0].id in growing:
                     bad = x
                 elif isinstance(x, ast.Call) and isinstance(x.func, ast.Attribute) and x.func.attr == 'add' and x.args and is_idkey(x.args[0]) \
                         and isinstance(x.func.value, ast.Name) and x.func.value.id in setnames:
@@ -626,6 +635,13 @@ def r12_default_scope_is_the_extension_family(ctx, res):
     from .c04 import r4_default_formula
     r4_default_formula(ctx, res)
 
+def r13_relation_types_registered(ctx, res):
+    """a relation is stored through the rowid of its type in the shared relation_types table: the table is completed from EVERY
+    relation of the lexicon being added - local and external synsets and senses alike (C05-R10) - or the add of an extension
+    that declares a new relation type on a base synset fails."""
+    from .c05 import r10_lookup_tables_complete
+    r10_lookup_tables_complete(ctx, res)
+
 RULES = [
     ('C11-R1', r1_termination, 6),
     ('C11-R2', r2_sibling_relation_queries, 10),
@@ -639,4 +655,5 @@ RULES = [
     ('C11-R10', r10_borrowed_relations_complete, 10),
     ('C11-R11', r11_reported_parents_unfiltered, 4),
     ('C11-R12', r12_default_scope_is_the_extension_family, 3),
+    ('C11-R13', r13_relation_types_registered, 3),
 ]
